@@ -224,7 +224,13 @@ package fs
 //@   callsite os.RemoveAll source_is_only_read [C34]: false
 //@   callsite os.Rename source_is_only_read [C34]: false
 //@   callsite os.Truncate source_is_only_read [C34]: false
+//@   callsite os.Link trackresult linkerr error: result
+//@   callsite os.Symlink trackresult symerr error: result
+//@   callsite CopyFile trackresult copyerr error: result
 //@   ensures linked_or_copied [C34]: result == nil ==> called("os.Symlink") || called("os.Link") || called("CopyFile")
+//@   ensures success_means_one_of_them_succeeded [C34]: result == nil ==> (called("os.Symlink") && symerr == nil) || \
+//@      (called("os.Link") && linkerr == nil) || (called("CopyFile") && copyerr == nil)
+//@   ensures a_failed_link_is_an_error_or_a_copy [C34]: called("os.Link") && linkerr != nil ==> (!fallback && result == linkerr) || called("CopyFile") || result != nil
 
 // ---------------------------------------------------------------------------------------------
 // Path hashes of directory trees (C09)
